@@ -538,7 +538,7 @@ fn main() {
     tvh::quiet_panics();
     let thorough = args.thorough();
     let mut out = CaseOut::new(&args.out, HEADER, 60);
-    let mut ctx = Ctx { out: &mut out, rng: Rng::new(args.seed), coq_budget: if thorough { 4000 } else { 900 }, score_tol: 0.0, script: vec![] };
+    let mut ctx = Ctx { out: &mut out, rng: Rng::new(args.seed), coq_budget: if thorough { 4000 } else { 750 }, score_tol: 0.0, script: vec![] };
     let scale: u64 = if thorough { 8 } else { 1 };
 
     let (_i1, s_small) = small_index(10);
